@@ -338,6 +338,24 @@ def _enabled_first(prefix: int, cmode: int) -> list:
     return out
 
 
+def _second_enabled(prefix: int, cmode: int, ev0: int, lo: int, hi: int) -> bool:
+    global PREFIX, CMODE
+    old = (PREFIX, CMODE)
+    PREFIX, CMODE = prefix, cmode
+    try:
+        for ev in range(lo, hi):
+            r = Run()
+            try:
+                r.prefix(prefix)
+                if r.apply(ev0) and r.apply(ev):
+                    return True
+            finally:
+                r.close()
+        return False
+    finally:
+        PREFIX, CMODE = old
+
+
 def shards(tier: str) -> list:
     out = []
     fn = "h19_3" if tier == "quick" else "h19_4"
@@ -347,6 +365,8 @@ def shards(tier: str) -> list:
         splits = [(0, 5), (5, 10), (10, 15), (15, NA)] if (p == 6 or tier != "quick") else [(0, NA)]
         for ev in _enabled_first(p, cm):
             for lo, hi in splits:
+                if len(splits) > 1 and not _second_enabled(p, cm, ev, lo, hi):
+                    continue  # nothing in this slice is enabled: the shard would be vacuous
                 out.append({"fn": fn, "env": {"PREFIX": p, "CMODE": cm, "SH0": ev, "SH1LO": lo, "SH1HI": hi}, "cond_timeout": 600 if tier == "quick" else 2400, "path_timeout": 60,
                             "desc": f"history '{PREFIX_NAMES[p]}' (connect {'immediate' if cm == 0 else 'pending'}), first event {NAMES[ev]}, second in [{lo},{hi}), then {1 if tier == 'quick' else 2} more symbolic events"})
     return out
